@@ -8,7 +8,7 @@ namespace MetricsVerif.Recoverable
 
 /-- strong references held by a thread at a given pc (= calls it has inside the recorder) -/
 def pcIns : PC → Nat
-  | .inside => 1 | .nUpgrade => 1 | .nInside => 2 | _ => 0
+  | .inside => 1 | .nUpgrade => 1 | .nInside => 2 | .dUp k => k | .dIn k => k | .iHdrop => 1 | .iTry => 1 | _ => 0
 def insN (t : Thread) : Nat := pcIns t.pc
 def insCount (s : Sys) : Nat := (s.threads.map insN).sum
 
@@ -52,6 +52,20 @@ theorem stepThread_threads (s : Sys) (t : Thread) : (stepThread s t).1.threads =
   · unfold keepLeaveStep; simp only [release_threads]
   · rfl
   · rfl
+  · exact upgradeStep_threads ..
+  · exact leaveStep_threads ..
+  · unfold deepUpStep; split
+    · rfl
+    · split <;> rfl
+  · unfold deepLeaveStep; split
+    · rfl
+    · simp only [release_threads]
+  · exact upgradeStep_threads ..
+  · unfold dropInsideStep; split
+    · simp only [release_threads]
+    · rfl
+  · exact upgradeStep_threads ..
+  · unfold intoInsideStep; split <;> rfl
   · rfl
 
 theorem pcOfCall_ins (c : Call) : pcIns (pcOfCall c) = 0 := by cases c <;> rfl
@@ -97,14 +111,14 @@ inductive Eff (s : Sys) (t : Thread) : Sys → Thread → Prop
       Eff s t { s with inside := s.inside - 1, strong := 0, finalised := s.finalised + 1 } t'
   | leaveMore (t' : Thread) : insN t = insN t' + 1 → s.strong ≠ 1 →
       Eff s t { s with inside := s.inside - 1, strong := s.strong - 1 } t'
-  | unwrap : insN t = 0 → s.handle = true → s.strong = 1 →
+  | unwrap (t' : Thread) : insN t' = insN t → s.handle = true → s.strong = 1 →
       Eff s t { s with strong := 0, handle := false, recovered := true,
-                       unwrapBusy := s.unwrapBusy || decide (s.inside > 0) } (t.advance .recovered)
-  | hdropLast : insN t = 0 → s.handle = true → s.strong = 1 →
-      Eff s t { s with handle := false, strong := 0, finalised := s.finalised + 1 } (t.advance .dropped)
-  | hdropMore : insN t = 0 → s.handle = true → s.strong ≠ 1 →
-      Eff s t { s with handle := false, strong := s.strong - 1 } (t.advance .dropped)
-  | hdropGone : insN t = 0 → s.handle = false → Eff s t s (t.advance .dropped)
+                       unwrapBusy := s.unwrapBusy || decide (s.inside > 0) } t'
+  | hdropLast (t' : Thread) : insN t' = insN t → s.handle = true → s.strong = 1 →
+      Eff s t { s with handle := false, strong := 0, finalised := s.finalised + 1 } t'
+  | hdropMore (t' : Thread) : insN t' = insN t → s.handle = true → s.strong ≠ 1 →
+      Eff s t { s with handle := false, strong := s.strong - 1 } t'
+  | hdropGone (t' : Thread) : insN t' = insN t → s.handle = false → Eff s t s t'
 
 theorem upgradeStep_eff (s : Sys) (t : Thread) (pc' : PC) (h0 : insN t = 0) (h1 : pcIns pc' = 1) :
     Eff s t (upgradeStep s t pc').1 (upgradeStep s t pc').2 := by
@@ -163,22 +177,68 @@ theorem stepThread_eff (s : Sys) (t : Thread) : Eff s t (stepThread s t).1 (step
     split
     · rename_i h
       simp only [Bool.and_eq_true, decide_eq_true_eq] at h
-      exact .unwrap (by simp [insN, pcIns, hp]) h.1 h.2
+      exact .unwrap _ (by rw [insN_advance]; simp [insN, pcIns, hp]) h.1 h.2
     · exact .noop
   · rename_i rest hp hc
     split
     · rename_i h
       unfold release
       split
-      · rename_i h1; exact .hdropLast (by simp [insN, pcIns, hp]) h h1
-      · rename_i h1; exact .hdropMore (by simp [insN, pcIns, hp]) h h1
-    · rename_i h; exact .hdropGone (by simp [insN, pcIns, hp]) (by simpa using h)
+      · rename_i h1; exact .hdropLast _ (by rw [insN_advance]; simp [insN, pcIns, hp]) h h1
+      · rename_i h1; exact .hdropMore _ (by rw [insN_advance]; simp [insN, pcIns, hp]) h h1
+    · rename_i h; exact .hdropGone _ (by rw [insN_advance]; simp [insN, pcIns, hp]) (by simpa using h)
   · rename_i rest hp hc; exact keepUpgradeStep_eff s t (by simp [insN, pcIns, hp])
   · rename_i rest hp hc; exact keepLeaveStep_eff s t (by simp [insN, pcIns, hp])
   · rename_i rest hp hc; exact .start _ (by simp [insN, pcIns, hp]) (insN_advance t _)
   · rename_i rest hp hc
     exact .start _ (by simp [insN, pcIns, hp])
       (by have := insN_advance t (.keptDropped t.kept.length); simp only [insN, kdropStep] at this ⊢; omega)
+  · rename_i d rest hp hc
+    exact upgradeStep_eff s t _ (by simp [insN, pcIns, hp]) (by by_cases h0 : d = 0 <;> simp [h0, pcIns])
+  · rename_i rest hp hc; exact leaveStep_eff s t _ (by simp [insN, pcIns, hp])
+  · rename_i k d rest hp hc
+    unfold deepUpStep
+    split
+    · exact .noop
+    · rename_i hk
+      split
+      · rename_i h; exact .enter _ (by by_cases h0 : k + 1 > d <;> simp [insN, hp, pcIns, h0]) h
+      · rename_i h
+        refine .ignored _ ?_ (by omega)
+        by_cases h1 : k = 1 <;> simp [insN, hp, pcIns, h1]
+  · rename_i k d rest hp hc
+    unfold deepLeaveStep
+    split
+    · exact .noop
+    · rename_i hk
+      have hins : ∀ (r : List Res), insN t = insN ({ t with pc := (if k = 2 then PC.inside else PC.dIn (k - 1)), results := r } : Thread) + 1 := by
+        intro r
+        by_cases h2 : k = 2
+        · simp [insN, hp, pcIns, h2]
+        · simp only [insN, hp, pcIns, h2, if_false]; omega
+      unfold release
+      split
+      · rename_i h1; exact .leaveLast _ (hins _) h1
+      · rename_i h1; exact .leaveMore _ (hins _) h1
+  · rename_i rest hp hc; exact upgradeStep_eff s t _ (by simp [insN, pcIns, hp]) rfl
+  · rename_i rest hp hc
+    unfold dropInsideStep
+    simp only
+    split
+    · rename_i h
+      unfold release
+      split
+      · rename_i h1; exact .hdropLast _ (by simp [insN, pcIns, hp]) h h1
+      · rename_i h1; exact .hdropMore _ (by simp [insN, pcIns, hp]) h h1
+    · rename_i h; exact .hdropGone _ (by simp [insN, pcIns, hp]) (by simpa using h)
+  · rename_i rest hp hc; exact upgradeStep_eff s t _ (by simp [insN, pcIns, hp]) rfl
+  · rename_i rest hp hc
+    unfold intoInsideStep
+    split
+    · rename_i h
+      simp only [Bool.and_eq_true, decide_eq_true_eq] at h
+      exact .unwrap _ (by simp [insN, pcIns, hp]) h.1 h.2
+    · exact .noop
   · exact .noop
 
 theorem init_inv (progs : List (List Call)) : Inv (init progs) := by
@@ -257,8 +317,7 @@ theorem step_inv (s : Sys) (tid : Nat) (h : Inv s) : Inv (step s tid) := by
               handle_live := h.handle_live,
               gone := (by simp only; intro x; omega),
               no_late_entry := h.no_late_entry, no_busy_unwrap := h.no_busy_unwrap }
-    | unwrap c0 hh h1 =>
-      have c1 := insN_advance t .recovered
+    | unwrap t' c1 hh h1 =>
       have hl := h.handle_live hh
       have hins : s.inside = 0 := by rw [hh] at hse; simp at hse; omega
       exact { strong_eq := by simp only; simp [hins], inside_eq := by simp only at hic ⊢; omega,
@@ -268,8 +327,7 @@ theorem step_inv (s : Sys) (tid : Nat) (h : Inv s) : Inv (step s tid) := by
               gone := fun _ _ => Or.inr rfl,
               no_late_entry := h.no_late_entry,
               no_busy_unwrap := by simp [h.no_busy_unwrap, hins] }
-    | hdropLast c0 hh h1 =>
-      have c1 := insN_advance t .dropped
+    | hdropLast t' c1 hh h1 =>
       have hl := h.handle_live hh
       rw [hh] at hse
       simp only [if_true] at hse
@@ -279,8 +337,7 @@ theorem step_inv (s : Sys) (tid : Nat) (h : Inv s) : Inv (step s tid) := by
               handle_live := (by simp),
               gone := (fun _ _ => Or.inl (by simp only [hl.1]; omega)),
               no_late_entry := h.no_late_entry, no_busy_unwrap := h.no_busy_unwrap }
-    | hdropMore c0 hh h1 =>
-      have c1 := insN_advance t .dropped
+    | hdropMore t' c1 hh h1 =>
       have hl := h.handle_live hh
       rw [hh] at hse
       simp only [if_true] at hse
@@ -290,11 +347,212 @@ theorem step_inv (s : Sys) (tid : Nat) (h : Inv s) : Inv (step s tid) := by
               handle_live := (by simp),
               gone := (by simp only; intro x; omega),
               no_late_entry := h.no_late_entry, no_busy_unwrap := h.no_busy_unwrap }
-    | hdropGone c0 hh =>
-      have c1 := insN_advance t .dropped
+    | hdropGone t' c1 hh =>
       exact { strong_eq := hse, inside_eq := by simp only at hic ⊢; omega, once := honce, ended := h.ended,
               handle_live := h.handle_live, gone := h.gone, no_late_entry := h.no_late_entry,
               no_busy_unwrap := h.no_busy_unwrap }
+
+set_option linter.unusedSimpArgs false
+
+/-! ### which end calls were executed: results against remaining calls
+
+`recN` / `drpN` count the `recovered` / `dropped` answers a thread has got, `iiLeft` / `dhLeft` the `into_inner` /
+handle-drop calls it still has to make.  Every step keeps `recN + iiLeft` and `drpN + dhLeft` of the stepping thread,
+and it adds a `recovered` (`dropped`) answer exactly when the system took the unwrap (handle-drop) transition. -/
+
+def isRec : Res → Bool
+  | .recovered => true | _ => false
+def isDrp : Res → Bool
+  | .dropped => true | _ => false
+def recN (t : Thread) : Nat := (t.results.filter isRec).length
+def drpN (t : Thread) : Nat := (t.results.filter isDrp).length
+def iiLeft (t : Thread) : Nat := (t.calls.filter isII).length
+def dhLeft (t : Thread) : Nat := (t.calls.filter isDH).length
+/-- a thread at `done` has no call left -/
+def doneOk (t : Thread) : Prop := t.pc = .done → t.calls = []
+
+/-- thread `t` became `t'`, getting `dr` more `recovered` and `dd` more `dropped` answers; `lost` handle-dropping
+    calls were consumed without being executed (an `emitDropInside` answered with an inert handle) -/
+structure TE (t t' : Thread) (dr dd lost : Nat) : Prop where
+  r : recN t' = recN t + dr
+  d : drpN t' = drpN t + dd
+  ii : iiLeft t' + dr = iiLeft t
+  dh : dhLeft t' + dd + lost = dhLeft t
+  dn : doneOk t → doneOk t'
+
+/-- what the step did to the handle / the recovered flag, matching the answers the thread got -/
+def SysEnds (s s' : Sys) (dr dd : Nat) : Prop :=
+  (dr = 0 ∧ dd = 0 ∧ s'.handle = s.handle ∧ s'.recovered = s.recovered)
+  ∨ (dr = 1 ∧ dd = 0 ∧ s.handle = true ∧ s'.handle = false ∧ s'.recovered = true)
+  ∨ (dr = 0 ∧ dd = 1 ∧ s'.handle = false ∧ s'.recovered = s.recovered)
+
+theorem pcOfCall_ne_done (c : Call) : pcOfCall c ≠ .done := by cases c <;> simp [pcOfCall]
+
+theorem advance_doneOk (t : Thread) (r : Res) : doneOk (t.advance r) := by
+  unfold doneOk Thread.advance
+  cases h : t.calls.tail with
+  | nil => intro _; rfl
+  | cons c rest => simp only; intro hd; exact absurd hd (pcOfCall_ne_done c)
+
+theorem filt_rr : List.filter isRec [Res.recovered] = [Res.recovered] := rfl
+theorem filt_rd : List.filter isRec [Res.dropped] = [] := rfl
+theorem filt_dr : List.filter isDrp [Res.recovered] = [] := rfl
+theorem filt_dd : List.filter isDrp [Res.dropped] = [Res.dropped] := rfl
+
+theorem te_noop (t : Thread) : TE t t 0 0 0 := ⟨rfl, rfl, rfl, rfl, id⟩
+
+theorem te_pc (t : Thread) (pc' : PC) (h : pc' ≠ .done) : TE t { t with pc := pc' } 0 0 0 :=
+  ⟨rfl, rfl, rfl, rfl, fun _ hd => absurd hd h⟩
+
+theorem te_res (t : Thread) (pc' : PC) (r : Res) (h : pc' ≠ .done) (h1 : isRec r = false) (h2 : isDrp r = false) :
+    TE t { t with pc := pc', results := t.results ++ [r] } 0 0 0 :=
+  ⟨by simp [recN, List.filter_append, h1], by simp [drpN, List.filter_append, h2], rfl, rfl, fun _ hd => absurd hd h⟩
+
+theorem te_adv (t : Thread) (r : Res) (c : Call) (rest : List Call) (hc : t.calls = c :: rest)
+    (c1 : isII c = false) (c2 : isDH c = false) (h1 : isRec r = false) (h2 : isDrp r = false) :
+    TE t (t.advance r) 0 0 0 :=
+  ⟨by simp [recN, Thread.advance, List.filter_append, h1], by simp [drpN, Thread.advance, List.filter_append, h2],
+   by simp [iiLeft, Thread.advance, hc, List.filter_cons, c1], by simp [dhLeft, Thread.advance, hc, List.filter_cons, c2],
+   fun _ => advance_doneOk t r⟩
+
+theorem te_adv_lost (t : Thread) (r : Res) (c : Call) (rest : List Call) (hc : t.calls = c :: rest)
+    (c1 : isII c = false) (c2 : isDH c = true) (h1 : isRec r = false) (h2 : isDrp r = false) :
+    TE t (t.advance r) 0 0 1 :=
+  ⟨by simp [recN, Thread.advance, List.filter_append, h1], by simp [drpN, Thread.advance, List.filter_append, h2],
+   by simp [iiLeft, Thread.advance, hc, List.filter_cons, c1], by simp [dhLeft, Thread.advance, hc, List.filter_cons, c2],
+   fun _ => advance_doneOk t r⟩
+
+theorem te_adv_rec (t : Thread) (rest : List Call) (hc : t.calls = .intoInner :: rest) : TE t (t.advance .recovered) 1 0 0 :=
+  ⟨by simp [recN, Thread.advance, List.filter_append, filt_rr, filt_rd], by simp [drpN, Thread.advance, List.filter_append, filt_dr, filt_dd],
+   by simp [iiLeft, Thread.advance, hc, List.filter_cons, isII], by simp [dhLeft, Thread.advance, hc, List.filter_cons, isDH],
+   fun _ => advance_doneOk t _⟩
+
+theorem te_adv_drp (t : Thread) (rest : List Call) (hc : t.calls = .dropHandle :: rest) : TE t (t.advance .dropped) 0 1 0 :=
+  ⟨by simp [recN, Thread.advance, List.filter_append, filt_rr, filt_rd], by simp [drpN, Thread.advance, List.filter_append, filt_dr, filt_dd],
+   by simp [iiLeft, Thread.advance, hc, List.filter_cons, isII], by simp [dhLeft, Thread.advance, hc, List.filter_cons, isDH],
+   fun _ => advance_doneOk t _⟩
+
+theorem te_in_drp (t : Thread) (rest : List Call) (hc : t.calls = .emitDropInside :: rest) :
+    TE t { t with pc := .inside, calls := .emit :: rest, results := t.results ++ [.dropped] } 0 1 0 :=
+  ⟨by simp [recN, List.filter_append, filt_rr, filt_rd], by simp [drpN, List.filter_append, filt_dr, filt_dd],
+   by simp [iiLeft, hc, List.filter_cons, isII], by simp [dhLeft, hc, List.filter_cons, isDH],
+   fun _ hd => by simp at hd⟩
+
+theorem te_kept {t x : Thread} {a b c : Nat} (k : List Bool) (h : TE t x a b c) : TE t { x with kept := k } a b c :=
+  ⟨h.r, h.d, h.ii, h.dh, h.dn⟩
+
+theorem release_hr (s : Sys) : (release s).handle = s.handle ∧ (release s).recovered = s.recovered := by
+  unfold release; split <;> exact ⟨rfl, rfl⟩
+
+theorem se_same (s : Sys) : SysEnds s s 0 0 := Or.inl ⟨rfl, rfl, rfl, rfl⟩
+theorem se_enter (s : Sys) : SysEnds s (enter s) 0 0 := Or.inl ⟨rfl, rfl, rfl, rfl⟩
+theorem se_leave (s : Sys) : SysEnds s (release { s with inside := s.inside - 1 }) 0 0 :=
+  Or.inl ⟨rfl, rfl, (release_hr _).1, (release_hr _).2⟩
+
+/-- the claim about one thread step -/
+def StepEnds (s : Sys) (t : Thread) (s' : Sys) (t' : Thread) : Prop :=
+  ∃ dr dd lost, TE t t' dr dd lost ∧ SysEnds s s' dr dd ∧ (lost > 0 → s.strong = 0)
+
+theorem upgradeStep_ends (s : Sys) (t : Thread) (pc' : PC) (c : Call) (rest : List Call) (hc : t.calls = c :: rest)
+    (hpc : pc' ≠ .done) (c1 : isII c = false) :
+    StepEnds s t (upgradeStep s t pc').1 (upgradeStep s t pc').2 := by
+  unfold upgradeStep
+  split
+  · exact ⟨0, 0, 0, te_pc t pc' hpc, se_enter s, fun h => absurd h (by omega)⟩
+  · rename_i h
+    cases c2 : isDH c with
+    | false => exact ⟨0, 0, 0, te_adv t .ignored c rest hc c1 c2 rfl rfl, se_same s, fun h => absurd h (by omega)⟩
+    | true => exact ⟨0, 0, 1, te_adv_lost t .ignored c rest hc c1 c2 rfl rfl, se_same s, fun _ => by omega⟩
+
+theorem leaveStep_ends (s : Sys) (t : Thread) (r : Res) (c : Call) (rest : List Call) (hc : t.calls = c :: rest)
+    (c1 : isII c = false) (c2 : isDH c = false) (h1 : isRec r = false) (h2 : isDrp r = false) :
+    StepEnds s t (leaveStep s t r).1 (leaveStep s t r).2 :=
+  ⟨0, 0, 0, te_adv t r c rest hc c1 c2 h1 h2, se_leave s, fun h => absurd h (by omega)⟩
+
+/-- every step of a thread of a state satisfying `Inv`: answers and remaining calls stay in balance -/
+theorem stepThread_ends (s : Sys) (t : Thread) (tid : Nat) (hinv : Inv s) (hg : s.threads[tid]? = some t) :
+    StepEnds s t (stepThread s t).1 (stepThread s t).2 := by
+  have hle := insN_le_insCount s tid t hg
+  have hse := hinv.strong_eq
+  have hie := hinv.inside_eq
+  have z : ∀ n : Nat, (0 < 0 → n = 0) := fun _ h => absurd h (by omega)
+  unfold stepThread
+  split
+  · rename_i hp hc; exact ⟨0, 0, 0, ⟨rfl, rfl, rfl, rfl, fun _ _ => hc⟩, se_same s, z _⟩
+  · rename_i c rest hp hc; exact ⟨0, 0, 0, te_pc t _ (pcOfCall_ne_done c), se_same s, z _⟩
+  · rename_i rest hp hc; exact upgradeStep_ends s t _ _ rest hc (by simp) rfl
+  · rename_i rest hp hc; exact upgradeStep_ends s t _ _ rest hc (by simp) rfl
+  · rename_i rest hp hc; exact upgradeStep_ends s t _ _ rest hc (by simp) rfl
+  · rename_i rest hp hc; exact leaveStep_ends s t _ _ rest hc rfl rfl rfl rfl
+  · rename_i rest hp hc; exact leaveStep_ends s t _ _ rest hc rfl rfl rfl rfl
+  · rename_i rest hp hc; exact leaveStep_ends s t _ _ rest hc rfl rfl rfl rfl
+  · rename_i rest hp hc
+    split
+    · exact ⟨0, 0, 0, te_pc t _ (by simp), se_enter s, z _⟩
+    · exact ⟨0, 0, 0, te_res t _ _ (by simp) rfl rfl, se_same s, z _⟩
+  · rename_i rest hp hc; exact ⟨0, 0, 0, te_res t _ _ (by simp) rfl rfl, se_leave s, z _⟩
+  · rename_i rest hp hc
+    split
+    · rename_i h
+      simp only [Bool.and_eq_true, decide_eq_true_eq] at h
+      exact ⟨1, 0, 0, te_adv_rec t rest hc, Or.inr (Or.inl ⟨rfl, rfl, h.1, rfl, rfl⟩), z _⟩
+    · exact ⟨0, 0, 0, te_noop t, se_same s, z _⟩
+  · rename_i rest hp hc
+    split
+    · rename_i h
+      exact ⟨0, 1, 0, te_adv_drp t rest hc, Or.inr (Or.inr ⟨rfl, rfl, (release_hr _).1, (release_hr _).2⟩), z _⟩
+    · rename_i h
+      exact ⟨0, 1, 0, te_adv_drp t rest hc, Or.inr (Or.inr ⟨rfl, rfl, by simpa using h, rfl⟩), z _⟩
+  · rename_i rest hp hc
+    unfold keepUpgradeStep
+    split
+    · exact ⟨0, 0, 0, te_pc t _ (by simp), se_enter s, z _⟩
+    · exact ⟨0, 0, 0, te_kept _ (te_adv t .ignored _ rest hc rfl rfl rfl rfl), se_same s, z _⟩
+  · rename_i rest hp hc
+    unfold keepLeaveStep
+    exact ⟨0, 0, 0, te_kept _ (te_adv t .delivered _ rest hc rfl rfl rfl rfl), se_leave s, z _⟩
+  · rename_i rest hp hc
+    unfold useStep
+    exact ⟨0, 0, 0, te_adv t _ _ rest hc rfl rfl rfl rfl, se_same s, z _⟩
+  · rename_i rest hp hc
+    unfold kdropStep
+    exact ⟨0, 0, 0, te_kept _ (te_adv t (.keptDropped t.kept.length) _ rest hc rfl rfl rfl rfl), se_same s, z _⟩
+  · rename_i d rest hp hc
+    exact upgradeStep_ends s t _ _ rest hc (by by_cases h0 : d = 0 <;> simp [h0]) rfl
+  · rename_i d rest hp hc; exact leaveStep_ends s t _ _ rest hc rfl rfl rfl rfl
+  · rename_i k d rest hp hc
+    unfold deepUpStep
+    split
+    · exact ⟨0, 0, 0, te_noop t, se_same s, z _⟩
+    · split
+      · exact ⟨0, 0, 0, te_pc t _ (by by_cases h0 : k + 1 > d <;> simp [h0]), se_enter s, z _⟩
+      · exact ⟨0, 0, 0, te_res t _ _ (by by_cases h1 : k = 1 <;> simp [h1]) rfl rfl, se_same s, z _⟩
+  · rename_i k d rest hp hc
+    unfold deepLeaveStep
+    split
+    · exact ⟨0, 0, 0, te_noop t, se_same s, z _⟩
+    · exact ⟨0, 0, 0, te_res t _ _ (by by_cases h2 : k = 2 <;> simp [h2]) rfl rfl, se_leave s, z _⟩
+  · rename_i rest hp hc; exact upgradeStep_ends s t _ _ rest hc (by simp) rfl
+  · rename_i rest hp hc
+    unfold dropInsideStep
+    simp only
+    split
+    · exact ⟨0, 1, 0, te_in_drp t rest hc, Or.inr (Or.inr ⟨rfl, rfl, (release_hr _).1, (release_hr _).2⟩), z _⟩
+    · rename_i h
+      exact ⟨0, 1, 0, te_in_drp t rest hc, Or.inr (Or.inr ⟨rfl, rfl, by simpa using h, rfl⟩), z _⟩
+  · rename_i rest hp hc; exact upgradeStep_ends s t _ _ rest hc (by simp) rfl
+  · rename_i rest hp hc
+    unfold intoInsideStep
+    split
+    · -- unreachable: the thread itself holds a reference, so the count is not 1 while the handle exists
+      rename_i h
+      simp only [Bool.and_eq_true, decide_eq_true_eq] at h
+      have h1 : insN t = 1 := by simp [insN, pcIns, hp]
+      rw [h.1] at hse
+      simp only [if_true] at hse
+      omega
+    · exact ⟨0, 0, 0, te_noop t, se_same s, z _⟩
+  · exact ⟨0, 0, 0, te_noop t, se_same s, z _⟩
 
 /-- no thread is between its upgrade and its return ⇒ nothing is counted inside -/
 theorem insCount_zero_of_quiet (s : Sys) (hq : ∀ u ∈ s.threads, insN u = 0) : insCount s = 0 := by
@@ -310,5 +568,131 @@ theorem run_inv (sched : List Nat) : ∀ s, Inv s → Inv (run s sched) := by
   induction sched with
   | nil => intro s h; exact h
   | cons t ts ih => intro s h; exact ih _ (step_inv s t h)
+
+/-! ### the invariant "handle = false ⇔ an end call was executed", with the balance against the programs -/
+
+def sumT (f : Thread → Nat) (s : Sys) : Nat := (s.threads.map f).sum
+
+structure EndInv (progs : List (List Call)) (s : Sys) : Prop where
+  inv : Inv s
+  /-- `into_inner` calls: answered `recovered` + still to make = what the programs contain -/
+  ii_bal : sumT (fun t => recN t + iiLeft t) s = iiTotal progs
+  /-- handle drops: answered `dropped` + still to make ≤ what the programs contain, with equality unless … -/
+  dh_le : sumT (fun t => drpN t + dhLeft t) s ≤ dhTotal progs
+  /-- … one was answered with an inert handle, which needs the handle to be gone already -/
+  dh_eq : sumT (fun t => drpN t + dhLeft t) s = dhTotal progs ∨ s.handle = false
+  /-- the recorder was recovered iff some thread got the answer `recovered` (exactly one) -/
+  rec_flag : sumT recN s = if s.recovered then 1 else 0
+  /-- **the handle is gone iff an end call was executed** -/
+  handle_iff : s.handle = false ↔ sumT (fun t => recN t + drpN t) s > 0
+  done_ok : ∀ t ∈ s.threads, doneOk t
+
+theorem sum_init (f : Thread → Nat) (g : List Call → Nat) (h : ∀ p, f (mkThread p) = g p) (progs : List (List Call)) :
+    sumT f (init progs) = (progs.map g).sum := by
+  unfold sumT init
+  simp only
+  induction progs with
+  | nil => rfl
+  | cons p ps ih => simp only [List.map_cons, List.sum_cons, ih, h]
+
+theorem init_endInv (progs : List (List Call)) : EndInv progs (init progs) := by
+  have hz : ∀ f : Thread → Nat, (∀ p, f (mkThread p) = 0) → sumT f (init progs) = 0 := by
+    intro f hf
+    rw [sum_init f (fun _ => 0) hf]
+    induction progs with
+    | nil => rfl
+    | cons p ps ih => simp only [List.map_cons, List.sum_cons, ih]
+  have h2 : sumT (fun t => drpN t + dhLeft t) (init progs) = dhTotal progs :=
+    sum_init _ (fun p => (p.filter isDH).length) (fun p => by simp [drpN, dhLeft, mkThread]) progs
+  refine { inv := init_inv progs,
+           ii_bal := sum_init _ (fun p => (p.filter isII).length) (fun p => by simp [recN, iiLeft, mkThread]) progs,
+           dh_le := by rw [h2]; exact Nat.le_refl _,
+           dh_eq := Or.inl h2,
+           rec_flag := by rw [hz recN (fun p => by simp [recN, mkThread])]; rfl,
+           handle_iff := by rw [hz _ (fun p => by simp [recN, drpN, mkThread])]; simp [init],
+           done_ok := ?_ }
+  intro t ht hd
+  simp only [init, List.mem_map] at ht
+  obtain ⟨p, _, rfl⟩ := ht
+  simp [mkThread] at hd
+
+theorem step_some (s : Sys) (tid : Nat) (t : Thread) (hg : s.threads[tid]? = some t) :
+    step s tid = { (stepThread s t).1 with threads := setAt (stepThread s t).1.threads tid (stepThread s t).2 } := by
+  unfold step; rw [hg]
+
+theorem step_endInv (progs : List (List Call)) (s : Sys) (tid : Nat) (h : EndInv progs s) : EndInv progs (step s tid) := by
+  have hinv' := step_inv s tid h.inv
+  cases hg : s.threads[tid]? with
+  | none => have : step s tid = s := by unfold step; rw [hg]
+            rw [this]; exact h
+  | some t =>
+    have e := step_some s tid t hg
+    have hth := stepThread_threads s t
+    obtain ⟨dr, dd, lost, te, se, hl⟩ := stepThread_ends s t tid h.inv hg
+    generalize (stepThread s t).1 = s' at e hth se
+    generalize (stepThread s t).2 = t' at e te
+    have hH : (step s tid).handle = s'.handle := by rw [e]
+    have hR : (step s tid).recovered = s'.recovered := by rw [e]
+    have hT : (step s tid).threads = setAt s.threads tid t' := by rw [e]; simp only [hth]
+    have hS : ∀ f : Thread → Nat, sumT f (step s tid) + f t = sumT f s + f t' := by
+      intro f; unfold sumT; rw [hT]; exact sum_map_setAt f s.threads tid t' t hg
+    have S1 := hS (fun t => recN t + iiLeft t)
+    have S2 := hS (fun t => drpN t + dhLeft t)
+    have S3 := hS recN
+    have S4 := hS (fun t => recN t + drpN t)
+    try simp only at S1 S2 S4
+    have tr := te.r
+    have td := te.d
+    have ti := te.ii
+    have tdh := te.dh
+    have a1 := h.ii_bal
+    have a2 := h.dh_le
+    have a3 := h.rec_flag
+    have a4 := h.handle_iff
+    have hdone : ∀ u ∈ (step s tid).threads, doneOk u := by
+      intro u hu
+      rw [hT] at hu
+      rcases mem_setAt hu with hu | hu
+      · rw [hu]; exact te.dn (h.done_ok t (mem_of_getElem? hg))
+      · exact h.done_ok u hu
+    rcases se with ⟨r0, d0, k1, k2⟩ | ⟨r1, d0, k1, k2, k3⟩ | ⟨r0, d1, k1, k2⟩
+    · subst r0; subst d0
+      refine { inv := hinv', ii_bal := by omega, dh_le := by omega, dh_eq := ?_, rec_flag := by rw [hR, k2]; omega,
+               handle_iff := by rw [hH, k1]; constructor
+                                · intro x; have := a4.1 x; omega
+                                · intro x; exact a4.2 (by omega),
+               done_ok := hdone }
+      by_cases hl0 : lost = 0
+      · rcases h.dh_eq with x | x
+        · left; omega
+        · right; rw [hH, k1]; exact x
+      · right
+        have h0 := hl (by omega)
+        have hse := h.inv.strong_eq
+        rw [hH, k1]
+        cases hh : s.handle with
+        | false => rfl
+        | true => rw [hh] at hse; simp at hse; omega
+    · subst r1; subst d0
+      have hl' := h.inv.handle_live k1
+      have hs0 : sumT recN s = 0 := by rw [a3, hl'.2]; rfl
+      refine { inv := hinv', ii_bal := by omega, dh_le := by omega, dh_eq := Or.inr (by rw [hH]; exact k2),
+               rec_flag := by rw [hR, k3]; simp only [if_true]; omega,
+               handle_iff := by rw [hH, k2]; constructor
+                                · intro _; omega
+                                · intro _; rfl,
+               done_ok := hdone }
+    · subst r0; subst d1
+      refine { inv := hinv', ii_bal := by omega, dh_le := by omega, dh_eq := Or.inr (by rw [hH]; exact k1),
+               rec_flag := by rw [hR, k2]; omega,
+               handle_iff := by rw [hH, k1]; constructor
+                                · intro _; omega
+                                · intro _; rfl,
+               done_ok := hdone }
+
+theorem run_endInv (progs : List (List Call)) (sched : List Nat) : ∀ s, EndInv progs s → EndInv progs (run s sched) := by
+  induction sched with
+  | nil => intro s h; exact h
+  | cons t ts ih => intro s h; exact ih _ (step_endInv progs s t h)
 
 end MetricsVerif.Recoverable
